@@ -15,7 +15,7 @@ func main() {
 			"__eq/__lt/__le (with and without __le), __call/__unm/__tostring/__metatable, rawget/rawset/rawequal; handlers log their operands through emit; traces compared with the reference evaluator; " +
 			"non-trivial = at least 5 emitted rows or an error outcome; distinct by Gallina term",
 		Modes:     []luaprop.Mode{{Name: "meta", Features: f, Weight: 1}},
-		NQuick:    220,
+		NQuick:    400,
 		NThorough: 6000,
 		Corpus:    corpus,
 	})
